@@ -107,7 +107,33 @@ def stage_facts():
     if old != text:
         with open(path, "w") as f:
             f.write(text)
+    broken = list(broken) + stage_grammar_ebnf()
     return (not broken), broken
+
+
+def stage_grammar_ebnf():
+    """coq/theories/GrammarEbnf.v: the AST of /repo/grammar.ebnf as read by the real
+    (shipped) front end, regenerated on every run."""
+    import sexp2coq
+    front = os.path.join(TARGET, "debug", "front")
+    path = os.path.join(THEORIES, "GrammarEbnf.v")
+    broken = []
+    try:
+        out = subprocess.run([front, "dump", os.path.join(REPO, "grammar.ebnf")], stdout=subprocess.PIPE,
+                             text=True, timeout=60).stdout.strip()
+        if not out.startswith("(grammar"):
+            raise RuntimeError(out[:200])
+        text = sexp2coq.module([("g", out)], "AST of /repo/grammar.ebnf dumped through the shipped front end")
+    except Exception as e:  # the front end does not read its own grammar any more
+        text = ("(* GENERATED. grammar.ebnf could not be dumped: %s *)\nFrom PegV Require Import Syntax.\n"
+                "Inductive unrecognised_grammar := UnrecognisedGrammar.\nDefinition g : unrecognised_grammar := UnrecognisedGrammar.\n"
+                % str(e).replace("*)", "* )"))
+        broken.append(("grammar_ebnf", "the front end did not dump /repo/grammar.ebnf: %s" % e))
+    old = open(path).read() if os.path.exists(path) else None
+    if old != text:
+        with open(path, "w") as f:
+            f.write(text)
+    return broken
 
 
 # --------------------------------------------------------------------------
@@ -259,8 +285,15 @@ def pipe_lines(exe, lines, timeout=3600, env=None):
     e["NO_COLOR"] = "1"
     if env:
         e.update(env)
+    def big_stack():
+        import resource
+        try:
+            soft, hard = resource.getrlimit(resource.RLIMIT_STACK)
+            resource.setrlimit(resource.RLIMIT_STACK, (hard, hard))
+        except Exception:
+            pass
     p = subprocess.run([exe], input=data, stdout=subprocess.PIPE, stderr=subprocess.PIPE,
-                       text=True, timeout=timeout, env=e, errors="replace")
+                       text=True, timeout=timeout, env=e, errors="replace", preexec_fn=big_stack)
     out = p.stdout.split("\n")
     if out and out[-1] == "":
         out.pop()
